@@ -14,7 +14,7 @@ import c02, c03
 
 PROP = "C04"
 LEAN_MODULES = ["DrxProps.C04", "DrxProps.C04b", "DrxProps.C04Link"]
-FAMILIES = ["lspec"]
+FAMILIES = ["lspec", "lscr"]
 RULE = ("programs of the C02 and C03 spaces, in the three script kinds; expected = Lean toJs of the source tree (rendered), observed = Lean "
         "reader of the JavaScript subset applied to the real generate_js_code text, one observable per handler plus one for the class / "
         "wrapper shell and one for validity of the whole text. distinct_nontrivial = scripts whose every function was readable.")
@@ -60,6 +60,8 @@ def build_cases(scripts):
     for c in cases:
         c.expect = outs[i:i + len(c.lines)]
         i += len(c.lines)
+        # correspondence of the MODEL of the decompiler (family lscr) on the same script: the real JavaScript must be the model's
+        c.lines.append(f"lscr js {c.spec['lscr'] or '-'} {c.spec['lnam'] or '-'}"); c.expect.append(None)
     return cases, rejected
 
 
@@ -511,10 +513,12 @@ def split_js(text, skind):
 def impl(case):
     sp = case["spec"]
     n = len(case["lines"])
+    model_line = case["lines"][-1].startswith("lscr js ")        # corpus replays predate the model line
     try:
         text = L.decompile(L.B(sp["lscr"]), L.B(sp["lnam"]), want=("js",))["js"]
     except Exception:
         return [canon("error")] * n
+    tail = [canon(text)] if model_line else []
     chunks, mode = split_js(text, sp["skind"])
     hexu = lambda t: t.encode("utf-8").hex() or "-"
     outs = L.ask([f"lspec readjs {hexu(text)}"] + [f"lspec readjsfn {mode} {hexu(c)}" for c in chunks])
@@ -536,7 +540,7 @@ def impl(case):
     elif wt[0] != "ok":
         out[-1] = exp[nh] if len(exp) > nh else out[-1]      # the unreadable function is already reported on its own line
     out.append("valid" if (wt[0] == "ok" or not funcs_ok) else "invalid")
-    return out
+    return out + tail
 
 
 def nontrivial(case, io):
